@@ -122,7 +122,7 @@ Theorem C05_file_content : forall l ps hc w st' bs,
   NoDup (concat (map lf_sids (b_lfs st))) ->
   exists groups,
     write_file {| sul_seq := w_seq w; sul_vrl := w_vrl w; sul_id := w_ident w |} (concat groups) = OK bs
-    /\ Forall2 (lf_group st') (map lf_sids (b_lfs st)) groups
+    /\ Forall2 (lf_group st') (b_lfs st) groups
     /\ skeeps st st'.
 Proof.
   intros l ps hc w st' bs st H Hnd.
@@ -136,7 +136,7 @@ Theorem C05_file_content_single : forall l ps hc w st' bs f,
   let st := snd (run_actions ps b_init l) in
   write hc st w = (st', OK bs) -> b_lfs st = [f] ->
   exists g, write_file {| sul_seq := w_seq w; sul_vrl := w_vrl w; sul_id := w_ident w |} g = OK bs
-            /\ lf_group st' (lf_sids f) g /\ skeeps st st'.
+            /\ lf_group st' f g /\ skeeps st st'.
 Proof.
   intros l ps hc w st' bs f st H Hf.
   assert (Hi : Inv st) by (apply reachable_inv_actions; split; [apply WriteP.inv_shape_init | apply inv_struct_init]).
